@@ -5,6 +5,7 @@ package secure
 // puts into its certificate chain.
 
 import (
+	"bytes"
 	"context"
 	"crypto/ed25519"
 	"crypto/rand"
@@ -191,7 +192,7 @@ func TestC04QuicCertChain(t *testing.T) {
 				t.Fatalf("VERIF-INCONCLUSIVE harness: %v", err)
 			}
 			defer ln.Close()
-			var gotBytes int
+			var gotData []byte // everything the adversary's server received on its streams
 			go func() {
 				for {
 					conn, err := ln.Accept(ctx)
@@ -205,9 +206,9 @@ func TestC04QuicCertChain(t *testing.T) {
 								return
 							}
 							go func() {
-								k, _ := io.Copy(io.Discard, s)
+								d, _ := io.ReadAll(io.LimitReader(s, 1<<16))
 								mu.Lock()
-								gotBytes += int(k)
+								gotData = append(gotData, d...)
 								mu.Unlock()
 							}()
 						}
@@ -219,9 +220,9 @@ func TestC04QuicCertChain(t *testing.T) {
 								return
 							}
 							go func() {
-								k, _ := io.Copy(io.Discard, io.LimitReader(s, 1<<16))
+								d, _ := io.ReadAll(io.LimitReader(s, 1<<16))
 								mu.Lock()
-								gotBytes += int(k)
+								gotData = append(gotData, d...)
 								mu.Unlock()
 								s.Write([]byte{0, 0, 0, 2, 'o', 'k'})
 								s.Close()
@@ -250,9 +251,6 @@ func TestC04QuicCertChain(t *testing.T) {
 				if err != nil {
 					t.Fatalf("VERIF-INCONCLUSIVE harness: %v", err)
 				}
-				mu.Lock()
-				before := gotBytes
-				mu.Unlock()
 				c, cf := context.WithTimeout(ctx, 400*time.Millisecond)
 				pl := []byte(fmt.Sprintf("to-%s-secret-%d", claim, i))
 				if kind == "tell" {
@@ -261,15 +259,16 @@ func TestC04QuicCertChain(t *testing.T) {
 					n.Ask(c, make([]byte, 16), dst, p2p.IOVec{pl})
 				}
 				cf()
-				time.Sleep(10 * time.Millisecond)
-				mu.Lock()
-				if claim != "M" && gotBytes > before {
-					leaked += gotBytes - before
-				}
-				mu.Unlock()
 			}
+			time.Sleep(30 * time.Millisecond)
+			// payloads name the identity they were addressed to: the server may hold only those addressed to M
+			mu.Lock()
+			for _, tag := range []string{"to-V-secret", "to-random-secret"} {
+				leaked += bytes.Count(gotData, []byte(tag))
+			}
+			mu.Unlock()
 			if leaked > 0 {
-				problem("N handed %d payload bytes addressed to another identity to the adversary's server (its handshake key has fingerprint %v)", leaked, mID)
+				problem("N handed %d payload(s) addressed to another identity to the adversary's server (its handshake key has fingerprint %v)", leaked, mID)
 			}
 		}
 		time.Sleep(20 * time.Millisecond)
